@@ -128,6 +128,11 @@ def run_prop(ctx, pid, nested=False):
                                   "ops": [s["op"] for s in row["steps"][:stepi + 1]]}},
                       signature="chan mismatch code=%s" % (codes[1:] if len(codes) > 1 else "?"),
                       failing_input=False)
+    if ctx.thorough and pr["ok"] and not nested:
+        okc, outc = ctx.coqchk([sp["module"]])
+        if not okc:
+            ctx.violation("proof_broken", "coqchk " + sp["module"], {"log": outc[-3000:]},
+                          signature="coqchk", failing_input=False)
     if not pr["ok"] and not ctx.violations:
         ctx.violation("proof_broken", ", ".join(map(str, pr["broken"])) or "Channel build",
                       {"log": pr["log"][-4000:]}, signature="proof", failing_input=False)
